@@ -544,6 +544,71 @@ class FusedDivisions(Spec):
 
 
 # ---------------------------------------------------------------------------------------------
+class FusedTask(Spec):
+    """FusedIO._task(index): the concatenation of the source's tasks for exactly the members of bucket `index`, in
+    bucket order.  With FusionBuckets (the buckets are consecutive slices whose concatenation is the selection) this
+    gives: the fused read reads every selected partition exactly once, in order."""
+
+    file, qualname, props = IO, "FusedIO._task", ["C18", "C11", "C09", "C14"]
+    sizes = {"P": range(1, 4)}
+
+    def make_inputs(self, ex, sym, fr):
+        s, P, divs, known, ft = _fused_self(ex, sym, fr, False)
+        self._ft = ft
+        index = sym.int("index")
+        return {"self": s, "P": P, "index": index, "_ft": lambda i, ft=ft: ft(zint(i))}
+
+    def requires(self):
+        return {
+            "factor": lambda c, e: c.And(c.attr(e["self"], "_sub._fusion_compression_factor") > 0, c.attr(e["self"], "_sub._fusion_compression_factor") <= 1),
+            "index-in-range": lambda c, e: c.And(e["index"] >= 0, e["index"] < c.len(c.attr(e["self"], "_fusion_buckets"))),
+        }
+
+    def ensures(self):
+        def reads_bucket(c, e, r):
+            b = c.at(c.attr(e["self"], "_fusion_buckets"), e["index"])
+            return c.And(len(r) == 2, c.eq(r[0], c.fn("methods.concat")), c.eq(c.len(r[1]), c.len(b)), c.forall(0, c.len(b), lambda k: c.eq(c.at(r[1], k), e["_ft"](c.at(b, k)))))
+
+        return {"reads-exactly-its-bucket-in-order": reads_bucket}
+
+    def concrete_globals(self):
+        import dask_expr.io.io as m
+
+        return vars(m)
+
+    def concrete_inputs(self):
+        for n in range(1, 8):
+            for factor in (0.6, 0.3, 0.05):
+                for index in range(0, n):
+                    yield {"P": list(range(n)), "factor": factor, "index": index}
+        yield {"P": [2, 3, 4, 5], "factor": 0.3, "index": 1}
+
+    def concrete_env(self, inputs):
+        return None
+
+    def run_concrete(self, inputs):
+        from vf.pyvc.spec import SkipInput
+
+        obj, sub = FusionBuckets()._obj(inputs)
+        buckets = type(obj).__dict__["_fusion_buckets"].func(obj)
+        if inputs["index"] >= len(buckets):
+            raise SkipInput()
+
+        class _S:
+            pass
+
+        s = _S()
+        s._fusion_buckets = buckets
+        return {"self": s, "P": list(inputs["P"]), "index": inputs["index"], "_ft": lambda i: ("task", i)}, obj._task(inputs["index"])
+
+    def inputs_from_model(self, model, sz, sym):
+        P, index = sym.read_seq(model, "P"), sym.read_int(model, "index")
+        if P is None or index is None:
+            return None
+        return {"P": P, "factor": 0.5, "index": index}
+
+
+# ---------------------------------------------------------------------------------------------
 class HeadPartitions(Spec):
     """Head._partitions: the first k partitions of the child (all of them for k == -1)."""
 
@@ -736,4 +801,4 @@ class FromArrayDivisions(Spec):
         return {"n": sym.read_int(model, "n"), "chunk": sym.read_int(model, "chunk")}
 
 
-SPECS = [PFDivisions(), PFNPartitions(), PFTask(), PartitionsDivisions(), PartitionsTask(), FusionBuckets(), FusedDivisions(), HeadPartitions(), HeadDivisions(), TailDivisions(), FromArrayDivisions()]
+SPECS = [PFDivisions(), PFNPartitions(), PFTask(), PartitionsDivisions(), PartitionsTask(), FusionBuckets(), FusedDivisions(), FusedTask(), HeadPartitions(), HeadDivisions(), TailDivisions(), FromArrayDivisions()]
